@@ -30,7 +30,7 @@ func init() {
 	evidenceInfo["C01"] = evInfo{
 		rule: "one evaluation = one project built once through kit.NewJapi (root from disk) or kit.NewJApiFromFile (root in memory, INCLUDEs from disk) on the sim-disk under a seeded fault plan. " + faults +
 			"Projects: generator (valid), light include graphs (ordinary, hostile parameters, static cycles), 29 special configurations (missing/empty/directory root, macro cycles, malformed INCLUDEs, NUL/invalid UTF-8, truncated directives, ...), corpus. " +
-			"Phase 'scaling' first builds 20 project shapes (tags, methods, bodies, type chains and stars, allOf chains, includes, pastes, macro chains, responses, JSON-RPC, macro and include doubling ...) at size n and 4n and requires <= 8x the seam operations (deterministic work measure; linear = 4x). " +
+			"Phase 'depth' builds 12 documents with one construct nested or chained 100 000 levels deep (arrays, objects, macro chain, parentheses, regex groups, enum, annotation, or-rule, include chain of 2 000 files ...) under a 64 MB stack limit. Phase 'scaling' first builds 20 project shapes (tags, methods, bodies, type chains and stars, allOf chains, includes, pastes, macro chains, responses, JSON-RPC, macro and include doubling ...) at size n and 4n and requires <= 8x the seam operations (deterministic work measure; linear = 4x). " +
 			"Phase 'truncate' builds a document that uses every lexical construct cut at every byte offset x 3 line-ending conventions x 4 trailing bytes. " +
 			"Oracle: outcome is a catalog or a structured error value; no panic; the worker process survives; <= 5000 file accesses; no hang; no deadlock among goroutines the build starts itself; work (seam operations executed) <= 150 per byte served once above 400 000. " +
 			"non-trivial = at least one fault fired or the project is a hostile/special configuration; distinct = distinct (configuration kind, fired-fault multiset, access-log shape, outcome class) tuples",
@@ -82,9 +82,10 @@ func (e diskEngine) Plan(tier string) []Phase {
 		// "truncate": a document that uses every lexical construct, cut at every byte offset, in three
 		// line-ending conventions, optionally followed by one extra byte (~20 000 builds, a few seconds)
 		if tier == "thorough" {
-			return []Phase{{Mode: "scaling", Count: len(scaleShapes)}, {Mode: "truncate", Count: truncateCount()}, {Mode: "random", Share: 0.7}, {Mode: "sweep", Share: 0.3}}
+			return []Phase{{Mode: "scaling", Count: len(scaleShapes)}, {Mode: "depth", Count: len(depthShapes)}, {Mode: "truncate", Count: truncateCount()}, {Mode: "random", Share: 0.7}, {Mode: "sweep", Share: 0.3}}
 		}
-		return []Phase{{Mode: "scaling", Count: len(scaleShapes)}, {Mode: "truncate", Count: truncateCount()}, {Mode: "random", Share: 0.85}, {Mode: "sweep", Share: 0.15}}
+		// "depth": one construct nested 100 000 levels deep per job (recursion that follows the input)
+		return []Phase{{Mode: "scaling", Count: len(scaleShapes)}, {Mode: "depth", Count: len(depthShapes)}, {Mode: "truncate", Count: truncateCount()}, {Mode: "random", Share: 0.85}, {Mode: "sweep", Share: 0.15}}
 	}
 	return []Phase{{Mode: "random", Share: 1}}
 }
@@ -281,6 +282,12 @@ func (e diskEngine) Gen(job *Job) *Case {
 	if job.Mode == "truncate" {
 		c.Project = genTruncated(job.Index)
 		c.Note = "truncate"
+		return c
+	}
+	if job.Mode == "depth" {
+		sh := depthShapes[job.Index%len(depthShapes)]
+		c.Project = depthProject(sh, 100000)
+		c.Note = "depth:" + sh
 		return c
 	}
 	if job.Mode == "scaling" {
